@@ -15,9 +15,10 @@ git diff -- src/tests.rs > $OUT/demo_in_tests.diff 2>/dev/null; [ -s $OUT/demo_i
 LIB_WITH=$(cargo test --offline --lib 2>&1 | grep -E "^test result" | head -1)
 DEMO_WITH=$(cargo test --offline --test demo 2>&1 | grep -E "^test result|error\[" | head -1)
 HOOKS=$(cargo build --offline --features verif_hooks 2>&1 | grep -E "^error|Finished" | head -1)
-git stash push -q -- src
+# no `git stash`: the stash is shared by all worktrees of a repository
+git apply -R $OUT/patch.diff
 DEMO_WITHOUT=$(cargo test --offline --test demo 2>&1 | grep -E "^test result|error\[" | head -1)
-git stash pop -q
+git apply $OUT/patch.diff
 echo "lib tests with change : $LIB_WITH"
 echo "demo with change      : $DEMO_WITH"
 echo "demo without change   : $DEMO_WITHOUT"
